@@ -1,7 +1,12 @@
 use crate::internal::{consts, DirEntry, MiniAllocator, ObjType, Timestamp};
 use std::fmt;
 use std::path::{Path, PathBuf};
+#[cfg(not(cfb_verif))]
 use std::sync::{Arc, RwLock};
+#[cfg(cfb_verif)]
+use crate::internal::sync::RwLock;
+#[cfg(cfb_verif)]
+use std::sync::Arc;
 use uuid::Uuid;
 use web_time::SystemTime;
 
